@@ -27,7 +27,7 @@ NAMES = ["a", "b", "c", "d"]
 def rule(tier):
     return ("all 2x2 matrices over {-1,0,1,2}%s, all 3x3 companion matrices with coefficients in {-1,0,1} (thorough: {-1,0,1,2}), all 3x3 and 4x4 "
             "0/1 matrices with at most one 1 per row (every nilpotent-tail + cycle shape), all 3x3 and 4x4 bidiagonal chains with diagonal in {0,1} "
-            "(thorough {0,1,2}) and superdiagonal in {0,1}%s; x 2 initial vectors x 2 "
+            "(3x3 also -1; thorough {-1,0,1,2}) and superdiagonal in {0,1}%s; x 2 initial vectors x 2 "
             "inhomogeneous parts x {default, forced cyclic} (+ numeric root options where the spectrum is not rational); "
             "non-trivial = matrix whose sequence is not constant") % (
         "" if tier == "quick" else " and {1/2}", "" if tier == "quick" else ", all 3x3 over {-1,0,1} up to simultaneous permutation, one parametric entry p in 2x2")
@@ -60,7 +60,8 @@ def _mats(tier):
     # (x_i' = d_i x_i + s_i x_{i+1}); together with the inhomogeneous last component these are the "summing" shapes of the
     # acyclic solver (start index of an accumulator behind two delays, etc.)
     for dim in (3, 4):
-        for diag in itertools.product(["0", "1"] if tier == "quick" else ["0", "1", "2"], repeat=dim):
+        dalpha = (["-1", "0", "1"] if dim == 3 else ["0", "1"]) if tier == "quick" else ["-1", "0", "1", "2"]
+        for diag in itertools.product(dalpha, repeat=dim):
             for sup in itertools.product(["0", "1"], repeat=dim - 1):
                 m = [["0"] * dim for _ in range(dim)]
                 for i in range(dim):
